@@ -166,8 +166,8 @@ impl Engine for C01 {
     }
     fn phases(&self, tier: Tier) -> Vec<Phase> {
         let mut v = vec![
-            Phase::new("kind-agnostic expressions of <=2 constructors x 27 contexts", json!({"kind":"agnostic","k":2})),
-            Phase::new("kind-agnostic expressions of 3 constructors x 27 contexts", json!({"kind":"agnostic","k":3})),
+            Phase::new("kind-agnostic expressions of <=2 constructors x 28 contexts", json!({"kind":"agnostic","k":2})),
+            Phase::new("kind-agnostic expressions of 3 constructors x 28 contexts", json!({"kind":"agnostic","k":3})),
             Phase::new("annotation matrix: 17 keys x 14 value shapes x 9 positions x 8 targets", json!({"kind":"annotations"})),
             Phase::new("two modules: function bodies <=2 x arguments <=2 x 12 use sites", json!({"kind":"two","kb":2,"ka":2})),
         ];
@@ -179,7 +179,7 @@ impl Engine for C01 {
                 v.push(Phase::new(&format!("fragment {} (next bound)", crate::frags::NAMES[i]), json!({"kind":"frag","frag":i,"thorough":true})));
             }
             v.push(Phase::new("two modules: function bodies of 3 x arguments <=2 x 12 use sites", json!({"kind":"two","kb":3,"ka":2})));
-            v.push(Phase::new("kind-agnostic expressions of 4 constructors x 27 contexts", json!({"kind":"agnostic","k":4})));
+            v.push(Phase::new("kind-agnostic expressions of 4 constructors x 28 contexts", json!({"kind":"agnostic","k":4})));
         }
         v
     }
